@@ -125,10 +125,10 @@ def parse_contracts(path):
                 section = "loop"
                 arg = rest
             elif tag == "proof":
-                if rest.strip() == "end":
-                    rest = "end <end-of-body>"
+                if rest.strip() in ("end", "close"):
+                    rest = rest.strip() + " <end-of-body>"
                 where, anchor = rest.split(None, 1)
-                assert where in ("before", "after", "end"), where
+                assert where in ("before", "after", "end", "close"), where
                 section = "proof"
                 arg = (where, anchor.strip())
             elif tag == "sig":
@@ -362,7 +362,7 @@ class Gen:
         exact_norm = set()
         spans = {}
         for where, anchor, text in ctr.proofs:
-            if where == "end":
+            if where in ("end", "close"):
                 continue
             sp = _find_anchor(body, anchor)
             spans[anchor] = sp
@@ -373,6 +373,10 @@ class Gen:
         ins = []
         newlock = {}
         for where, anchor, text in ctr.proofs:
+            if where == "close":
+                # right before the closing brace of the body (bodies without a tail expression)
+                ins.append((body.rstrip().rfind("}"), "\n" + text))
+                continue
             if where == "end":
                 # before the last non-empty line of the body (the tail expression)
                 close = body.rstrip().rfind("}")
